@@ -1,8 +1,8 @@
 SPECIFICATION Spec
 CONSTANTS
-  Req = {r1, r2, r3}
-  Keys = {k1}
-  Disp = {d1}
+  Req = {r1, r2}
+  Keys = {"k1", "k2"}
+  Disp = {"d1"}
   Purgers = {}
   HasStore <- MC_HasStore
   Limit <- MC_Limit
@@ -10,17 +10,17 @@ CONSTANTS
   HfpTTL <- MC_HfpTTL
   Methods = {"GET"}
   TTLs = {1}
-  Outcomes = {"cacheable", "uncacheable", "error"}
-  LoadResults = {}
+  Outcomes = {"cacheable", "uncacheable"}
+  LoadResults = {"ok", "notfound"}
   SaveResults = {TRUE}
   Jumps = {1}
-  MaxTicks = 3
-  MaxStarts = 4
-  MaxVer = 4
-  MaxEnt = 1
+  MaxTicks = 1
+  MaxStarts = 3
+  MaxVer = 3
+  MaxEnt = 3
   MaxPurges = 0
-  MaxKills = 0
-  MaxDrops = 0
+  MaxKills = 1
+  MaxDrops = 1
   UnnamedPurge = FALSE
   ResumeRelooks = TRUE
   AgeAtDecision = TRUE
@@ -32,5 +32,5 @@ INVARIANTS
   TypeOK
   I_SingleFlight I_BurstCostsOne I_HitServed I_LabelTruth I_OnlyStoredIsShared I_KeyMatch
   I_HitFresh I_AgeTruth I_RefetchAfterExpiry I_HfpPass I_HfpNeverCached I_HfpLapses
-  I_PurgeEffective I_NoOwnError
+  I_PurgeEffective I_BadRecordIsMiss I_NoOwnError
   D_FetchingHasOwner D_OneOwner D_WaitersOnlyWhileFetching D_WaiterAccounted D_NoImmortal D_HitHasResponse D_Resident
